@@ -682,6 +682,9 @@ def _nal(t, nri, n, rng):
 def rand_c10(seed, tier, cases=None):
     rng = random.Random(seed * 7919 + 10)
     out = []
+    # one unit longer than 65535 bytes (the AVC length prefix has four bytes)
+    big = [0x65] + [(i * 7) % 250 + 1 for i in range(70000 - 1)]
+    out.append(dict(fam="C10", kind="payloader", mtu=1500, stapa=True, calls=[dict(units=[big], scs=[4])], **{"class": "giant_unit"}))
     for _ in range(500 if tier == "quick" else 12000):
         mtu = rng.choice([3, 4, 5, 6, 9, 17, 33, 100, 1200, rng.randint(3, 300)])
         stap = rng.random() < 0.6
